@@ -145,6 +145,7 @@ let parse_op17 t =
   | 'd' -> DropGuard (nat_of_int (int_tail t 1))
   | 'v' -> Available (nat_of_int (int_tail t 1))
   | 'k' -> Clone
+  | 'h' -> DropClone
   | _ -> failwith ("bad op " ^ t)
 
 let show_obs17 ob =
